@@ -23,9 +23,9 @@ PROPS['C15'] = dict(
                  'not store, is exempt from the identity and must be stable afterwards',
                  'single-instrument files store neither delays nor flags (specification); those members are not compared for OPNI values'],
     stages=[
-        dict(name='values', variant='asan', harness='c15_wopn.cpp', quick=2400, thorough=26000, budget=120),
-        dict(name='bytes', variant='asan', harness='c15_wopn.cpp', quick=6000, thorough=70000, budget=60),
-        dict(name='inst', variant='asan', harness='c15_wopn.cpp', quick=4000, thorough=40000, budget=60),
+        dict(name='values', variant='asan', harness='c15_wopn.cpp', quick=5000, thorough=50000, budget=120),
+        dict(name='bytes', variant='asan', harness='c15_wopn.cpp', quick=12000, thorough=120000, budget=60),
+        dict(name='inst', variant='asan', harness='c15_wopn.cpp', quick=8000, thorough=80000, budget=60),
         dict(name='memcheck', variant='plain-d', harness='c15_wopn.cpp', quick=200, thorough=4000, budget=150, wall=2400,
              wrapper=['valgrind', '-q', '--error-exitcode=79', '--exit-on-first-error=yes', '--track-origins=no', '--leak-check=no']),
     ],
